@@ -112,6 +112,10 @@ func C04real(r *ev.Report) {
 func init() {
 	Parts["C04real"] = Part{"C04", C04real}
 	Replayers["C04"] = func(c Case) (bool, string) {
+		if c["op"] == "persist" {
+			return Replayers["C10"](c)
+		}
+
 		key, detail := c04Case(repFromCase("p", c))
 		return key == "", key + " " + detail
 	}
